@@ -10,6 +10,7 @@ func allProps() []PropSpec {
 				{Func: "ZZ_C01_H3", Pkg: "pkg/protocol/http1", Quick: map[string]int{"C": 2, "S": 2, "SL": 2, "FRAG": 1}, Thorough: map[string]int{"C": 3, "S": 3, "SL": 2, "FRAG": 2}, Covers: []string{"reached-assert", "two-chunks"}},
 				{Func: "ZZ_C01_H4", Pkg: "pkg/protocol/http1", Quick: map[string]int{"K": 3, "FRAG": 3}, Thorough: map[string]int{"K": 4, "FRAG": 4}, Covers: []string{"reached-assert", "two-requests"}},
 				{Func: "ZZ_C01_MP", Pkg: "pkg/protocol/http1", Covers: []string{"reached-assert"}, Unwind: 40000, MaxSteps: 8000000, Note: "multipart/form-data with the default form pre-parsing (the real mime/multipart.Reader runs from SSA): epilogue lengths around the parser's read-ahead, pipelined sentinel"},
+				{Func: "ZZ_C14_H2", Pkg: "pkg/protocol/http1", Covers: []string{"reached-assert", "both-handled"}, Note: "pooled body stream reused on another connection after a failed release (shared with C14/C09)"},
 				{Func: "ZZ_C01_BIG", Pkg: "pkg/protocol/http1", Covers: []string{"reached-assert"}, Unwind: 40000, MaxSteps: 8000000, Note: "body lengths 4095..4097 and 8191..8193, fixed and chunked, four fragmentations"},
 				{Func: "ZZ_C14_H1", Pkg: "pkg/protocol/http1", Quick: map[string]int{"L": 4, "C": 2, "S": 3, "R": 2, "C01": 1}, Thorough: map[string]int{"L": 6, "C": 2, "S": 6, "R": 3, "C01": 1}, Covers: []string{"reached-assert"}, MaxSteps: 4000000, Note: "streaming mode: shared with C14 (its pipelined-request-still-handled assertion is a C01 clause)"},
 				{Func: "ZZ_C14_H4", Pkg: "pkg/protocol/http1", Quick: map[string]int{"L": 3, "C": 2, "S": 3, "R": 2, "C01": 1}, Thorough: map[string]int{"L": 4, "C": 2, "S": 3, "R": 3, "C01": 1}, Covers: []string{"reached-assert", "sentinel-handled"}, MaxSteps: 4000000, Note: "streaming mode, two-fragment delivery with the cut at every position of the body: shared with C14"},
@@ -57,6 +58,8 @@ func allProps() []PropSpec {
 				{Func: "ZZ_C03_HexInt", Pkg: "pkg/protocol/http1", Quick: map[string]int{"L": 17}, Thorough: map[string]int{"L": 20}, Covers: []string{"reached-assert", "parsed"}},
 				{Func: "ZZ_C03_CLI", Pkg: "pkg/protocol/http1/resp", Quick: map[string]int{"W": 1}, Thorough: map[string]int{"W": 2, "ENUMCAP": 300}, Covers: []string{"reached-end", "accepted", "rejected"}, Note: "client response read path: one (two) symbolic bytes at every position of six response shapes"},
 				{Func: "ZZ_C03_MP", Pkg: "pkg/protocol/http1", Covers: []string{"reached-assert", "over-limit", "corrupted-form-refused"}, Unwind: 40000, MaxSteps: 8000000, Note: "multipart/form-data with the default form pre-parsing (real mime/multipart.Reader from SSA): declared length above the limit, or one symbolic ASCII byte at every position of the form"},
+				{Func: "ZZ_C03_LIMIT", Pkg: "pkg/protocol/http1", Covers: []string{"reached-assert"}, Note: "buffered mode, body limit one byte below the body of every template with a body (fixed, chunked, Expect: 100-continue, GET/HEAD with a body), whole and byte-wise: one 4xx + close, no handler"},
+				{Func: "ZZ_C08_H3", Pkg: "pkg/app", Quick: map[string]int{"F": 2, "R": 3, "Q": 1, "PANICONLY": 1}, Thorough: map[string]int{"F": 3, "R": 4, "Q": 1, "PANICONLY": 1}, Unwind: 20000, Covers: []string{"reached-assert"}, Note: "Range header (untrusted) through the file handler on cached entries: no panic (C08's harness with its value assertions switched off)"},
 				{Func: "ZZ_C03_SRV", Pkg: "pkg/protocol/http1", Quick: map[string]int{"W": 1}, Thorough: map[string]int{"W": 2, "ENUMCAP": 300}, Covers: []string{"reached-assert", "rejected", "accepted-both"}},
 			},
 			Assumptions: []string{"time.Parse/ParseInLocation is an opaque stub that succeeds or fails nondeterministically", "inputs longer than the stated bounds are outside the claim", "SRV at W=2 (thorough): two adjacent symbolic bytes that are both hexadecimal digits are excluded (a symbolic multi-digit length makes the heap shape symbolic); every single symbolic byte is covered at W=1"},
@@ -159,6 +162,7 @@ func allProps() []PropSpec {
 				{Func: "ZZ_C04_H1", Pkg: "pkg/protocol/http1", Quick: map[string]int{"K": 1, "NSTATUS": 9, "L": 3}, Thorough: map[string]int{"K": 2, "NSTATUS": 4, "L": 2}, Covers: []string{"reached-assert", "bodiless", "with-body"}, MaxSteps: 4000000},
 				{Func: "ZZ_C04_BIG", Pkg: "pkg/protocol/http1", Covers: []string{"reached-assert"}, Unwind: 20000, MaxSteps: 8000000, Note: "8 KiB+ streamed body across copy-buffer boundaries (symbolic bytes at the boundaries)"},
 				{Func: "ZZ_C04_POOL", Pkg: "pkg/protocol/http1/resp", Covers: []string{"reached-assert", "writer-reused"}, Note: "pooled chunked body writer handed back through its finalizer path (release) and reused for the next response (sync.Pool modelled LIFO)"},
+				{Func: "ZZ_C04_SEQ", Pkg: "pkg/protocol/http1", Covers: []string{"reached-assert"}, Note: "second response on a keep-alive connection (recycled context) after a sized one: 204 / 304 / HEAD / empty / stream / sized; no framing left over"},
 			},
 			Assumptions: []string{"responses are produced by a handler inside the real Serve loop over the real standard.Conn and decoded by the strict reader in harness/pkg/protocol/http1/serve.go (not net/http)", "documented exclusion honoured: hijacked chunked writer on a response that may not have a body", "body sizes <= 3 bytes: the 4 KiB / MaxSmallFileSize flush thresholds are not exercised", "Date and Server headers disabled"},
 		},
